@@ -112,7 +112,8 @@ const MyPt P3 = {"c": 1}
 const inc.Pt P4 = {}
 const list<inc.Pt> LP = [{"x": 1}, {}]
 const map<i32, inc.Pt> MP = {1: {"y": 2}}
-const map<inc.Pt, string> KP = {{"x": 1}: "one"}
+const list<inc.Pt> LP2 = [inc.ORIGIN, P1, {"s": "lit"}]
+const map<string, inc.Pt> MP2 = {"o": inc.ORIGIN, "l": {"x": 4}}
 struct Inner { 1: required string name = "in", 2: optional list<i32> nums = [1, 2] }
 struct S {
   1: bool b = 1,
@@ -178,10 +179,33 @@ const i32 K2 = 444
 const i32 K = 555
 `
 
+const shadowThrift = `namespace go corpus.shadow
+include "shadowed.thrift"
+const i32 K = 222
+const string NAME = "outer"
+const shadowed.S s = {"f": K, "l": [K], "name": NAME}
+const list<shadowed.S> ls = [{"f": K}]
+struct Holder { 1: shadowed.S held = {"f": K} }
+`
+
+const shadowedThrift = `namespace go corpus.shadowed
+struct S { 1: i32 f, 2: list<i32> l, 3: string name }
+const i32 K = 111
+const string NAME = "inner"
+`
+
 const negzeroThrift = `namespace go corpus.negzero
 const double NZ = -0.0
 const list<double> LNZ = [-0.0, 0.0]
 struct Z { 1: double z = -0.0, 2: optional double oz = -0.0 }
+`
+
+const structkeyThrift = `namespace go corpus.structkey
+struct Pt { 1: i32 x, 2: optional string s }
+struct Empty {}
+const map<Pt, string> KP = {{"x": 1}: "one", {"x": 1}: "uno", {}: "zero"}
+const map<Empty, i32> KE = {{}: 1, {}: 2}
+struct H { 1: map<Pt, i32> m = {{"s": "k"}: 1} }
 `
 
 const tolerantThrift = `namespace go corpus.tolerant
@@ -209,8 +233,10 @@ func corpus() []corpusProg {
 	ps := []corpusProg{
 		{Key: "ways", Main: "ways.thrift", Files: map[string]string{"ways.thrift": waysThrift, "inc.thrift": incThrift}},
 		{Key: "foreign", Main: "foreign.thrift", Files: map[string]string{"foreign.thrift": foreignThrift, "lib.thrift": libThrift, "lib2.thrift": lib2Thrift, "lib3.thrift": lib3Thrift}},
+		{Key: "shadow", Main: "shadow.thrift", Files: map[string]string{"shadow.thrift": shadowThrift, "shadowed.thrift": shadowedThrift}},
 		{Key: "negzero", Main: "negzero.thrift", Files: map[string]string{"negzero.thrift": negzeroThrift}},
 		{Key: "tolerant", Main: "tolerant.thrift", Files: map[string]string{"tolerant.thrift": tolerantThrift}},
+		{Key: "structkey", Main: "structkey.thrift", Files: map[string]string{"structkey.thrift": structkeyThrift}},
 	}
 	pre := "enum E { A = 1 }\nstruct S { 1: i32 a, 2: optional S next }\ntypedef E TE\ntypedef list<i32> TL\ntypedef map<i32, i32> TM\n"
 	rejects := []struct{ key, body string }{
